@@ -114,6 +114,7 @@ type Enc struct {
 	axiomNames   []string
 	preludeText  string
 	constErrs    []string
+	tables       []constTable
 	assumedGlobals []string
 	nquant         int
 	localAllocs    []*localAlloc
@@ -382,6 +383,14 @@ func (e *Enc) constGlobal(name string, t types.Type) (string, bool) {
 				for i, el := range elems {
 					e.decls = append(e.decls, fmt.Sprintf("(assert (= (select (select %s (s.arr %s)) (at (s.off %s) %d)) %s))", h0, sym, sym, i, smtString(el)))
 				}
+				if !e.ctx.writtenTables[name] {
+					// never assigned through its own name: the elements are taken to stay what the
+					// literal says in every later version of the element heap (assumption, listed)
+					e.tables = append(e.tables, constTable{sym: sym, heap: h.Name, elems: elems})
+					if e.assumed != nil {
+						e.assumed["the elements of the package-level table "+shortPath(name)+" never change (no helm function assigns through that name)"] = true
+					}
+				}
 			}
 		}
 		if so == "Slice" {
@@ -389,6 +398,11 @@ func (e *Enc) constGlobal(name string, t types.Type) (string, bool) {
 		}
 	}
 	return sym, true
+}
+
+type constTable struct {
+	sym, heap string
+	elems     []string
 }
 
 func shortPath(name string) string {
@@ -636,6 +650,13 @@ func (e *Enc) patAlias(term, sortName string) string {
 // sliceHeapWF: every slice header stored in a heap version is well formed (contracts read such
 // headers without going through an SSA load, which is where the other type facts are attached).
 func (e *Enc) sliceHeapWF(h Heap, term string) {
+	for _, tb := range e.tables {
+		if tb.heap == h.Name {
+			for i, el := range tb.elems {
+				e.fact(fmt.Sprintf("(= (select (select %s (s.arr %s)) (at (s.off %s) %d)) %s)", term, tb.sym, tb.sym, i, smtString(el)))
+			}
+		}
+	}
 	if h.Kind == HMapL {
 		// map lengths are never negative and the nil map is empty
 		e.nquant++
@@ -827,6 +848,23 @@ func (e *Enc) run() (err error) {
 		// captured variable by name, meaning its value when the closure is entered
 		// (captured variables are resolved by name through resolveLocal, in the state the
 		// expression is evaluated in: `x` at a return is its current value, `old(x)` its value on entry)
+	}
+	// string tables referenced by the body are registered before the first heap version is cut
+	e.tables = nil
+	for _, b := range fn.Blocks {
+		for _, in := range b.Instrs {
+			var ops []*ssa.Value
+			for _, op := range in.Operands(ops) {
+				if op == nil || *op == nil {
+					continue
+				}
+				if g, ok := (*op).(*ssa.Global); ok {
+					if _, isTab := e.ctx.initStrings[g.String()]; isTab {
+						e.constGlobal(g.String(), g.Type().(*types.Pointer).Elem())
+					}
+				}
+			}
+		}
 	}
 	e.emitEntryClosed()
 	// requires
